@@ -488,6 +488,7 @@ impl Report {
         let replaying = self.cfg.only_sub.is_some();
         let sharded = self.cfg.shard.1 > 1;
         let mut total_viol = 0u64;
+        let mut blind_notes: Vec<String> = Vec::new();
         for s in &self.subs {
             total_viol += s.violations_total;
             if replaying || sharded {
@@ -501,6 +502,29 @@ impl Report {
             // violated cases are explored cases too: they count towards the floor, so that a
             // defect breaking most cases is reported as a violation (exit 1), not as a thin run
             if s.distinct_count() + s.violations_total < s.floor {
+                // A finite-field / symbolic tier cannot follow a branch on element values: when vek's
+                // code for an entry point (newly) compares elements, every case of such a tier
+                // abstains.  That is structural blindness of the tier, not a thin run: the floor is
+                // waived (with a note) provided every entry point the sub-check had to observe is
+                // observed by another sub-check of this run that is not blinded -- the exact-rational
+                // and native tiers then decide.  Otherwise it stays a harness problem.
+                const BLIND: [&str; 6] = ["poison:fp_compare", "poison:sym_compare", "poison:fp_abs", "poison:fp_epsilon", "poison:sym_epsilon", "poison:fp_floor"];
+                let blinded = |t: &Sub| -> bool {
+                    let b: u64 = BLIND.iter().map(|k| t.inconclusive.get(*k).copied().unwrap_or(0)).sum();
+                    t.evaluations > 0 && b * 100 >= t.evaluations * 95
+                };
+                if blinded(s) {
+                    let names: Vec<&String> = if s.required.is_empty() { s.observed.keys().collect() } else { s.required.iter().collect() };
+                    let covered = names.iter().all(|r| self.subs.iter().any(|t| t.name != s.name && !blinded(t) && t.conclusive > 0 && t.observed.get(*r).copied().unwrap_or(0) > 0));
+                    if covered && !names.is_empty() {
+                        blind_notes.push(format!(
+                            "{}: abstained (vek branches on element values in every case; a finite-field / symbolic tier cannot follow a branch); its {} entry points are decided by the other tiers of this run",
+                            s.name,
+                            names.len()
+                        ));
+                        continue;
+                    }
+                }
                 harness_problems.push(Json::s(format!(
                     "{}: only {} distinct non-trivial conclusive cases, floor is {}",
                     s.name,
@@ -517,7 +541,7 @@ impl Report {
             ("tool", Json::s(&self.cfg.tool)),
             ("shard", Json::s(format!("{}/{}", self.cfg.shard.0, self.cfg.shard.1))),
             ("wall_s", Json::Num(wall)),
-            ("notes", Json::Arr(self.notes.iter().map(|n| Json::s(n.clone())).collect())),
+            ("notes", Json::Arr(self.notes.iter().chain(blind_notes.iter()).map(|n| Json::s(n.clone())).collect())),
             ("harness_problems", Json::Arr(harness_problems.clone())),
             ("subs", Json::Arr(self.subs.iter().map(|s| s.to_json()).collect())),
         ]);
